@@ -6,7 +6,7 @@ META = {
                    "and the dispatch skeleton (an unauthenticated or monitoring sender is disconnected and nothing of its message is routed), plus the transport skeletons of C11 (a corrupt stream disconnects that transport after delivering the complete messages before it; nothing is read into the loader before authentication). The jobs are the same harnesses "
                    "as in C01/C02/C07/C08/C16/C03/C11, re-run here so that C10's evidence is self-contained.",
     "outside": ["bounded latency for bystanders, main-loop fairness, floods, many sockets, half-sent messages followed by silence: these need a running process and a clock and are "
-                "not addressable by bounded symbolic execution of kernels", "bus_connections_expire_incomplete / max_incomplete_connections accounting (needs the clock and the accept loop)"],
+                "not addressable by bounded symbolic execution of kernels", "the accept loop itself (poll / accept on the listening sockets); the gate, the accept step and the expiry pass are checked as single steps"],
 }
 def _other(pid):
     p = os.path.join(os.path.dirname(__file__), pid + ".py")
@@ -19,6 +19,7 @@ PICK = {
     "C16": lambda n, t: (n.startswith("a.") and n.endswith(".N8")) or n == "a.range" or n.startswith("d.utf8.N6") or n.startswith("c.signature.N5") or t == "thorough",
     "C03": lambda n, t: n.startswith("dispatch."),
     "C11": lambda n, t: n.startswith("L4.") or n.startswith("L5.") or n.startswith("L2."),
+    "C13": lambda n, t: n.startswith("connection.accept") or n.startswith("accept_gate."),
 }
 def jobs(tier):
     J = []
